@@ -51,6 +51,17 @@ func internalResultToTraversal(p traversal, r regoPathResultInternal) traversal 
 	}
 }
 
+// copyTraversal gives the copy its own backing arrays, so that appending to it cannot overwrite a sibling's lines
+func copyTraversal(t traversal) traversal {
+	return traversal{
+		variable:      t.variable,
+		counter:       t.counter,
+		rego:          append([]string(nil), t.rego...),
+		pathVariables: append([]string(nil), t.pathVariables...),
+		paths:         append([]string(nil), t.paths...),
+	}
+}
+
 // GeneratePropertySet Traversed the path, starting at the provided variable and returns a set of reached values
 func GeneratePropertySet(path path.PropertyPath, variable string, iriExpander *misc.IriExpander) RegoPathResult {
 	return generateResult(path, variable, false, iriExpander, aggregateResultsIntoSet)
@@ -168,7 +179,8 @@ func traverse(propPath path.PropertyPath, traversed traversal, fetchNodes bool, 
 func traverseOr(or path.OrPath, t traversal, fetchNodes bool, iriExpander *misc.IriExpander) []regoPathResultInternal {
 	acc := make([]regoPathResultInternal, 0)
 	for _, p := range or.Or {
-		traversed := traverse(p, t, fetchNodes, iriExpander)
+		// every alternative extends its own copy of the traversed prefix
+		traversed := traverse(p, copyTraversal(t), fetchNodes, iriExpander)
 		for _, tr := range traversed {
 			acc = append(acc, tr)
 		}
